@@ -32,7 +32,7 @@ RULE = ("random pipelines: builder Probe/PlaneWave x potential Atoms/FrozenPhono
         "non-trivial = the pipeline has an ensemble, scan, exit-plane or distribution axis to partition AND at least one lazy variant "
         "was computed from a graph with more than one task-producing block; distinct = distinct pipeline signature")
 CLAUSES = ["lazy-vs-eager:values", "lazy-vs-eager:axes", "lazy-vs-eager:type", "lazy-vs-eager:shape", "same-outcome",
-           "threaded-vs-synchronous:values"]
+           "threaded-vs-synchronous:values", "joint-compute:values"]
 QUICK = dict(n=36, time=50)
 THOROUGH = dict(n=2390, time=480, shards=16)
 
@@ -151,6 +151,11 @@ def gen(rng, tier):
         })
     d["variants"] = variants
     d["vseed"] = int(rng.integers(0, 2 ** 31))
+    if rng.random() < 0.25:
+        # a second pipeline of the same kind, evaluated lazily in ONE dask.compute call together with the first:
+        # graphs of different objects must not share task keys (seeds, class names, shapes are deliberately equal)
+        d["joint"] = {"cell": G.rand_cell_case(rng, max_atoms=4, max_xy=6.5, max_z=5.0, min_xy=3.5, min_z=2.0),
+                      "energy": float(rng.choice([60e3, 120e3, 250e3])), "same_cell_size": bool(rng.random() < 0.7)}
     return d
 
 
@@ -182,7 +187,28 @@ def fixed_cases(tier):
                "variants": [{"max_batch": "auto", "scheduler": "synchronous", "workers": 1, "stress": "none"},
                             {"max_batch": 2, "scheduler": "synchronous", "workers": 1, "stress": "none"},
                             {"max_batch": 3, "scheduler": "threads", "workers": 4, "stress": "none"}], "vseed": 3})
-    return [base, pw, cs]
+    # plane wave + CTF with a weighted (gaussian) defocus series cut into uneven batches
+    wc = {"builder": "plane", "cell": base["cell"], "gpts": [24, 24], "energy": 200e3, "slice_thickness": 2.0,
+          "projection": "infinite", "potential": {"kind": "atoms"}, "exit_planes": None, "detectors": [{"type": "waves"}],
+          "normalize": False, "tilt": [0.0, 0.0],
+          "ctf": {"defocus": -50.0, "Cs": -2e5, "semiangle": 30.0, "focal_spread": 0.0,
+                  "defocus_dist": {"lo": -80.0, "hi": 80.0, "n": 7, "form": "gaussian", "mean": False, "wseed": 1}},
+          "variants": [{"max_batch": "auto", "scheduler": "synchronous", "workers": 1, "stress": "none"},
+                       {"max_batch": 3, "scheduler": "threads", "workers": 4, "stress": "none"},
+                       {"max_batch": 2, "scheduler": "synchronous", "workers": 1, "stress": "none"}], "vseed": 4}
+    wc2 = dict(wc)
+    wc2["ctf"] = dict(wc["ctf"], defocus_dist={"lo": -80.0, "hi": 80.0, "n": 5, "form": "weighted", "mean": False, "wseed": 2})
+    # two frozen-phonon pipelines with EQUAL seeds over different atoms in one dask.compute call
+    jt = dict(base)
+    jt.update({"exit_planes": None, "detectors": [{"type": "waves"}], "scan": {"kind": "none"},
+               "potential": {"kind": "frozen", "num_configs": 2, "sigma": 0.1, "seed": 7, "ensemble_mean": False},
+               "joint": {"cell": {"cell": [5.43, 5.43, 5.43], "symbols": ["Au", "C"], "positions": [[1.0, 2.0, 1.0], [3.5, 4.0, 3.0]]},
+                         "energy": 100e3, "same_cell_size": True},
+               "variants": [{"max_batch": "auto", "scheduler": "synchronous", "workers": 1, "stress": "none"}], "vseed": 5})
+    jp = dict(pw)
+    jp.update({"joint": {"cell": {"cell": [5.43, 5.43, 5.43], "symbols": ["Au"], "positions": [[1.0, 2.0, 1.0]]},
+                         "energy": 200e3, "same_cell_size": True}, "pw_tilt_dist": {"form": "x", "x": [-4.0, 5.0], "y": [0.0, 0.0]}})
+    return [base, pw, cs, wc, wc2, jt, jp]
 
 
 def _graph_stats(obj):
@@ -257,7 +283,39 @@ def check(ctx, case):
             # scheduling must not change anything: same blocks, same float operations
             G.compare_objects(ctx, lazy_out, sync_result, "threaded-vs-synchronous", rtol=3e-5, atol_rel=3e-6,
                               meta=False, variant=v)
+    if "joint" in case and eager_err is None:
+        _joint(ctx, case, eager)
     ctx.nontrivial(P.is_nontrivial(case) and multi_block and eager_err is None)
+
+
+def _joint(ctx, case, eager_first):
+    """Two lazy pipelines with equal seeds/classes/shapes in one dask.compute call == their separate eager results."""
+    import dask
+    second = {k: v for k, v in case.items() if k not in ("joint", "variants", "vseed")}
+    j = case["joint"]
+    cell = dict(j["cell"])
+    if j["same_cell_size"]:
+        cell["cell"] = list(case["cell"]["cell"])
+        cell["positions"] = (np.array(cell["positions"]) % np.array(cell["cell"])).tolist()
+    second["cell"] = cell
+    second["energy"] = j["energy"]
+    try:
+        eager_second = P.run(second, lazy=False)
+    except Exception:
+        ctx.note("joint-partner-refused")
+        return
+    a = P.run(case, lazy=True)
+    b = P.run(second, lazy=True)
+    la = a if isinstance(a, list) else [a]
+    lb = b if isinstance(b, list) else [b]
+    arrays = dask.compute(*[o.array for o in la + lb], scheduler="threads", num_workers=4)
+    ctx.monitor("joint-computes")
+    ea = eager_first if isinstance(eager_first, list) else [eager_first]
+    eb = eager_second if isinstance(eager_second, list) else [eager_second]
+    for got, want, which in zip(arrays, ea + eb, ["first"] * len(la) + ["second"] * len(lb)):
+        w = G.to_numpy(want)
+        scale = max(float(np.abs(w).max()), 1e-30)
+        ctx.close(np.asarray(got), w, "joint-compute:values", rtol=3e-5, atol=3e-6 * scale, which=which)
 
 
 def signature_of(case):
